@@ -322,3 +322,7 @@ TWINS = [
     Twin("negate-form", [(CHEM, "            other *= -1\n            flip = True", "            other = -other\n            flip = True")]),
     Twin("add-term-order", [(CHEM, "                self.prod.get(key, 0)\n                - self.reac.get(key, 0)\n                + other.prod.get(key, 0)\n                - other.reac.get(key, 0)", "                self.prod.get(key, 0)\n                + other.prod.get(key, 0)\n                - self.reac.get(key, 0)\n                - other.reac.get(key, 0)")]),
 ]
+
+# shared rule A2 (name resolution of the analysed code unchanged)
+MUTANTS.append(Mutant("override-added-in-subclass", [(CHEM, "    def as_reactions(\n", "    def net_stoich(self, substance_keys):\n        return tuple(0 for _ in substance_keys)\n\n    def as_reactions(\n")], "C11-A2", "new-override"))
+MUTANTS.append(Mutant("builtin-shadowed", [(CHEM, "def balance_stoichiometry(", "def sum(seq, start=0):\n    return start\n\n\ndef balance_stoichiometry(")], "C11-A2", "shadows-builtin"))
